@@ -193,6 +193,29 @@ mod harness {
         }
     }
 
+    /// full-domain version of c19_mul_sign_and_checked (thorough tier; minutes): every 2 x 2^128 operand pair
+    #[kani::proof]
+    #[kani::stub(<Integer as std::string::ToString>::to_string, stub_to_string)]
+    fn c19_mul_full_domain() {
+        let a = any_integer();
+        let b = any_integer();
+        let (ma, na) = norm(&a);
+        let (mb, nb) = norm(&b);
+        let r = a.checked_mul(b);
+        match ma.checked_mul(mb) {
+            Some(m) => {
+                assert!(r.is_ok());
+                let r = r.unwrap();
+                assert!(norm(&r) == (m, (na != nb) && m != 0));
+                if m == 0 {
+                    assert!(r == Integer::zero());
+                    assert!(!(r < Integer::zero()));
+                }
+            }
+            None => assert!(r.is_err()),
+        }
+    }
+
     #[kani::proof]
     fn c19_div_sign_and_checked() {
         let a = any_integer_small();
